@@ -94,6 +94,16 @@ def gen_msg(r, i, request_only=False):
     if r.chance(0.3) and opts:
         opts.append(list(r.choice(opts)))  # repeated option
     pl = r.choice([b"", b"", b"\xff", b"x", r.randbytes(r.randint(0, 64)), r.randbytes(300)])
+    if r.chance(0.04):
+        # very many options (RFC 7252 has no maximum number; only the datagram's size bounds it): repeatable options
+        # with empty or one-byte values, up to what one readable datagram (4096 bytes) holds
+        many = r.choice([200, 500, 1000, 1023, 1024, 1025, 1026, 1100, 1500, 2048, 2049, 3000])
+        base = r.choice([[15, ""], [11, ""], [15, "61"], [4, "00"], [UNKNOWN_OPTS[0], ""], [8, ""]])
+        opts = sorted(opts, key=lambda o: o[0])
+        opts = [o for o in opts if o[0] < base[0]] + [list(base) for _ in range(many)] + [o for o in opts if o[0] > base[0]]
+        while sum(3 + len(o[1]) // 2 for o in opts) > 3900:
+            opts.pop()
+        pl = pl[:64]
     if code == 0:
         opts, pl = [], b""
     return {"type": typ, "code": code, "mid": r.choice([0, 0xFFFF, 0x8000 + i]), "token": r.randbytes(r.choice([0, 1, 2, 4, 8])).hex(),
